@@ -415,9 +415,9 @@ class BzrGitMapping(foreign.VcsMapping):
                     raise AssertionError(f"unexpected length for {git_p!r}")
                 parents.append(git_p)
         commit.parents = parents
-        try:
-            encoding = rev.properties["git-explicit-encoding"]
-        except KeyError:
+        encoding = rev.properties.get("git-explicit-encoding")
+        if encoding is None or encoding == "false":
+            # import_commit does not decode with the explicit encoding "false" either
             encoding = rev.properties.get("git-implicit-encoding", "utf-8")
         with contextlib.suppress(KeyError):
             commit.encoding = rev.properties["git-explicit-encoding"].encode("ascii")
